@@ -148,3 +148,73 @@ Lemma gap_edit_same_contents g g' c :
 Proof.
   intros H H'. apply gap_match_determines_hex in H. apply gap_match_determines_hex in H'. congruence.
 Qed.
+
+(* ---------- which data is hashed ---------- *)
+Lemma hashed_data_is_byte_range_data cmsContent data :
+  hashedData (dataToVerify cmsContent data) = data.
+Proof. unfold dataToVerify. destruct (isNil cmsContent); reflexivity. Qed.
+
+Lemma p7_unmodified_hashes_byte_range attrOK sha1eq sigOK cmsContent data :
+  p7Verdict attrOK sha1eq sigOK cmsContent data = TFalse ->
+  sigOK = true /\
+  ((cmsContent = [] /\ attrOK data = true) \/
+   (cmsContent <> [] /\ sha1eq data cmsContent = true /\ attrOK cmsContent = true)).
+Proof.
+  unfold p7Verdict, dataToVerify, signatureContent.
+  destruct sigOK; simpl; [|discriminate].
+  destruct cmsContent as [|x t]; simpl.
+  - destruct (attrOK data); simpl; [|discriminate]. intros _. split; [reflexivity|]. left. now split.
+  - destruct (attrOK (x :: t)); simpl; [|discriminate].
+    destruct (sha1eq data (x :: t)) eqn:E; [|discriminate].
+    intros _. split; [reflexivity|]. right. repeat split; try assumption. discriminate.
+Qed.
+
+Lemma eqbList_eq a b : eqbList a b = true -> a = b.
+Proof.
+  revert b. induction a as [|x a IH]; intros [|y b]; simpl; try discriminate; [reflexivity|].
+  intros H. apply andb_true_iff in H. destruct H as [H1 H2]. apply N.eqb_eq in H1. subst.
+  f_equal. now apply IH.
+Qed.
+
+(* forged eContent: the CMS carries the originally signed bytes D as content.  Whatever the
+   ByteRange bytes of the forged file are, "unmodified" would need SHA1(bytes) = D, impossible
+   when D is not 20 bytes long. *)
+Lemma forged_econtent_not_unmodified (sha1 : list N -> list N) attrOK sigOK D data' :
+  (forall x, length (sha1 x) = 20%nat) -> length D <> 20%nat -> D <> [] ->
+  p7Verdict attrOK (fun d c => eqbList (sha1 d) c) sigOK D data' <> TFalse.
+Proof.
+  intros Hlen HD Hne A. apply p7_unmodified_hashes_byte_range in A.
+  destruct A as [_ [[E _]|[_ [E _]]]]; [contradiction|].
+  apply eqbList_eq in E. apply HD. rewrite <- E. apply Hlen.
+Qed.
+
+Lemma docModified_false_inv verdict fsize f arr contents increment dts :
+  docModified verdict fsize f arr contents increment dts = TFalse ->
+  exists data, signedData f arr contents = Ok data /\ verdict data = TFalse.
+Proof.
+  unfold docModified. destruct (negb (boundaryOK fsize arr increment dts)); [discriminate|].
+  destruct (signedData f arr contents) as [d|]; [|discriminate].
+  unfold applyHistorical. intros H. exists d. split; [reflexivity|].
+  destruct ((increment <=? 0) || dts); [exact H|]. destruct (verdict d); try discriminate; reflexivity.
+Qed.
+
+Lemma forged_econtent_document_not_unmodified (sha1 : list N -> list N) attrOK sigOK D
+    fsize f arr contents increment dts :
+  (forall x, length (sha1 x) = 20%nat) -> length D <> 20%nat -> D <> [] ->
+  docModified (p7Verdict attrOK (fun d c => eqbList (sha1 d) c) sigOK D)
+              fsize f arr contents increment dts <> TFalse.
+Proof.
+  intros Hlen HD Hne A. apply docModified_false_inv in A. destruct A as (data & _ & A).
+  revert A. now apply forged_econtent_not_unmodified.
+Qed.
+
+(* detached CMS (no eContent): "unmodified" means the digest of signedData(file, ByteRange)
+   itself is the signed messageDigest *)
+Lemma detached_unmodified_hashes_signed_data attrOK sha1eq sigOK fsize f arr contents increment dts :
+  docModified (p7Verdict attrOK sha1eq sigOK []) fsize f arr contents increment dts = TFalse ->
+  exists data, signedData f arr contents = Ok data /\ attrOK data = true.
+Proof.
+  intros A. apply docModified_false_inv in A. destruct A as (data & S & A).
+  exists data. split; [exact S|]. apply p7_unmodified_hashes_byte_range in A.
+  destruct A as [_ [[_ E]|[E _]]]; [exact E|congruence].
+Qed.
